@@ -12,6 +12,8 @@ const MIMEMultipartForm string = "multipart/form-data"
 // FormBinding is the form binder for form request body.
 type FormBinding struct {
 	EnableSplitting bool
+	// Immutable makes the binder copy keys and values out of the request buffers (Config.Immutable)
+	Immutable bool
 }
 
 // Name returns the binding name.
@@ -34,8 +36,8 @@ func (b *FormBinding) Bind(req *fasthttp.Request, out any) error {
 			return
 		}
 
-		k := utils.UnsafeString(key)
-		v := utils.UnsafeString(val)
+		k := toString(key, b.Immutable)
+		v := toString(val, b.Immutable)
 		err = formatBindData(out, data, k, v, b.EnableSplitting, true)
 	})
 
@@ -75,4 +77,5 @@ func (b *FormBinding) bindMultipart(req *fasthttp.Request, out any) error {
 // Reset resets the FormBinding binder.
 func (b *FormBinding) Reset() {
 	b.EnableSplitting = false
+	b.Immutable = false
 }
